@@ -386,6 +386,35 @@ static void build_streams(void)
                 frameB(st, 5); frameC(st, 6); if (ts) frameA(st, 7); sb_end(st);
         }
 
+        /* 9: variable length data units (data_identifier 0x99), the last unit of every packet one byte shorter than its
+         * data field: Teletext with length 43, VPS 13, WSS 2, Closed Caption 2, ZVBI WSS CPR-1204 3, ZVBI Caption 525 2,
+         * samples 3.  A length check that is off by one reads the byte behind the PES packet - the next stream byte when
+         * the packet is processed in place, a stale byte when it was assembled from several calls (partition independence),
+         * and past the caller's buffer when the packet ends it (exact heap block).  One PES packet of 184 bytes per frame;
+         * the trailing stuffing unit written by the multiplexer is shortened to make room. */
+        for (int ts = 0; ts < 2; ts++) {
+                static const struct { uint8_t id, len; } SH[7] = { { 0x02, 43 }, { 0xC3, 13 }, { 0xC4, 2 }, { 0xC5, 2 }, { 0xB4, 3 }, { 0xB5, 2 }, { 0xC6, 3 } };
+                char nm[40]; snprintf(nm, sizeof nm, "%s-short-units", ts ? "ts" : "pes");
+                st = &ST[NST++]; sb_begin(st, nm, ts, 0x99);
+                st->intact = 0;
+                for (int k = 0; k < 7; k++) {
+                        size_t at = st->n;
+                        sb_packet(st, k, LS({'t',7}), 184, 184);
+                        uint8_t *pes = st->b + at + (ts ? 4 : 0), *q = pes + 46, *last = NULL;
+                        while (q + 2 <= pes + 184) { last = q; q += 2 + q[1]; }
+                        unsigned need = 2 + SH[k].len;
+                        if (q != pes + 184 || !last || last[0] != 0xFF || last[1] < need + 2) h_die("short-units: no trailing stuffing unit of >= %u bytes in frame %d", need + 4, k);
+                        last[1] -= need;
+                        uint8_t *u = pes + 184 - need;
+                        u[0] = SH[k].id; u[1] = SH[k].len;
+                        u[2] = 0xC0 | (1 << 5) | (SH[k].id == 0xC3 ? 16 : SH[k].id == 0xC4 ? 23 : SH[k].id == 0xC5 || SH[k].id == 0xB5 ? 21 : 20);
+                        for (unsigned i = 3; i < need; i++) u[i] = (uint8_t)(0x15 + 7 * i + k);
+                        if (SH[k].id == 0x02) u[3] = 0xE4;      /* framing code */
+                }
+                frameA(st, 7); frameB(st, 8); if (ts) frameA(st, 9);
+                sb_end(st);
+        }
+
         /* base streams for the damage enumeration: 9 frames, the last one only flushes */
         for (int k = 0; k < 4; k++) {
                 st = &BASE[NBASE++];
@@ -1211,7 +1240,7 @@ int main(int argc, char **argv)
         for (int i = 0; i < NST; i++) {
                 const char *nm = ST[i].name;
                 sel[nsel++] = i;
-                ST[i].quick = i < first_variant && (strstr(nm, "-3x1") || strstr(nm, "-foreign") || strstr(nm, "-garbage") || strstr(nm, "-var") || strstr(nm, "-private"));
+                ST[i].quick = i < first_variant && (strstr(nm, "-3x1") || strstr(nm, "-foreign") || strstr(nm, "-garbage") || strstr(nm, "-var") || strstr(nm, "-private") || strstr(nm, "-short-units"));
                 if (mc_tier == MC_THOROUGH || ST[i].quick) { nrun++; if (i >= first_variant) nvar++; }
         }
         /* longest searches first */
